@@ -437,7 +437,7 @@ func isErrorConstructor(c *ssa.CallCommon) bool {
 
 // calleeErrKind: a function of the repository all of whose returns carry a
 // non-nil error (an error constructor such as connect.InvalidCSRError) is
-// RetFailure, one that only ever returns nil is RetSuccess.
+// RetFailure; anything else is RetUnknown.
 var calleeErrMemo = map[*ssa.Function]RetKind{}
 var calleeErrBusy = map[*ssa.Function]bool{}
 
@@ -462,7 +462,9 @@ func calleeErrKind(g *ssa.Function) RetKind {
 		}
 		kind = k
 	}
-	if kind == -1 {
+	if kind != RetFailure {
+		// only "always fails" is used: a forwarded call that may succeed keeps
+		// being resolved through the callee by the rules that follow it
 		kind = RetUnknown
 	}
 	calleeErrMemo[g] = kind
